@@ -223,6 +223,31 @@ inline const char *be_name(int b) {
 // ------------------------------------------------------------------ shared generators
 // backends: bitmask of allowed {rs=1, xor=2, isa_v=4, isa_c=8, null=16}
 enum { G_RS = 1, G_XOR = 2, G_ISAV = 4, G_ISAC = 8, G_NULL = 16, G_REAL = 15, G_ALL = 31 };
+
+// content class "payload checksum zero": patch the last four bytes of data fragment `frag`'s slice of the original
+// data so that the standard CRC-32 of that fragment's payload is 0 - a legitimate stored checksum value that a
+// writer can produce (2^-32 per fragment for random content, so it is constructed)
+static bool make_crc0(const ref::Config &g, std::vector<uint8_t> &data, int frag) {
+    if (data.empty() || frag < 0 || frag >= g.k) return false;
+    auto pl = ref::encode_payloads(g, data.data(), data.size());
+    if (pl.empty()) return false;
+    size_t bs = pl[0].size();
+    if (bs < 4 || (size_t)(frag + 1) * bs > data.size()) return false;
+    uint8_t *p = data.data() + (size_t)frag * bs;
+    static uint32_t tab[256]; static uint8_t rev[256]; static bool init = false;
+    if (!init) { for (uint32_t i = 0; i < 256; i++) { uint32_t c = i; for (int b = 0; b < 8; b++) c = (c & 1) ? 0xedb88320u ^ (c >> 1) : c >> 1; tab[i] = c; rev[c >> 24] = (uint8_t)i; } init = true; }
+    uint32_t r0 = ref::crc32_std(p, bs - 4) ^ 0xffffffffu;
+    uint32_t v = 0xffffffffu;       // the register value that finalises to checksum 0
+    for (int i = 0; i < 4; i++) { uint8_t t = rev[v >> 24]; v = ((v ^ tab[t]) << 8) | t; }
+    v ^= r0;
+    uint8_t save[4]; memcpy(save, p + bs - 4, 4);
+    p[bs - 4] = (uint8_t)v; p[bs - 3] = (uint8_t)(v >> 8); p[bs - 2] = (uint8_t)(v >> 16); p[bs - 1] = (uint8_t)(v >> 24);
+    auto pl2 = ref::encode_payloads(g, data.data(), data.size());
+    if (ref::crc32_std(pl2[frag].data(), pl2[frag].size()) == 0) return true;
+    memcpy(p + bs - 4, save, 4);    // the fragment's payload is not this slice (never for the built-in back ends)
+    return false;
+}
+
 inline Config gen_config(int allowed = G_REAL, int ct_force = -1) {
     using namespace fw;
     if (!isa_available()) allowed &= ~(G_ISAV | G_ISAC);
